@@ -29,11 +29,13 @@ NativeOp(op) == CASE op = "+" -> "+" [] op = "-" -> "-" [] op = "*" -> "*" [] op
 TemplateName(op) == CASE op = "/" -> "div_f" [] op = "//" -> "div_i" [] op = "%" -> "mod" [] op = "??" -> "coalesce" [] OTHER -> ""
 Tmpl(d, name) == LET ks == { k \in 1 .. Len(tm) : tm[k].dialect = d /\ tm[k].op = name } IN
                  IF ks = {} THEN Node("none", "", <<>>) ELSE tm[CHOOSE k \in ks : TRUE].ast
-RECURSIVE Subst(_, _, _)
-Subst(ast, L, R) ==
-  IF ast.k = "id" /\ ast.op = "zzlzz" THEN L
-  ELSE IF ast.k = "id" /\ ast.op = "zzrzz" THEN R
-  ELSE [ast EXCEPT !.a = [i \in 1 .. Len(ast.a) |-> Subst(ast.a[i], L, R)]]
+RECURSIVE SubstEnv(_, _)
+\* env: sequence of [name, shape]; a placeholder is the identifier zz<name>zz
+SubstEnv(ast, env) ==
+  IF ast.k = "id" /\ \E i \in 1 .. Len(env) : ast.op = "zz" \o env[i].name \o "zz"
+  THEN env[CHOOSE i \in 1 .. Len(env) : ast.op = "zz" \o env[i].name \o "zz"].shape
+  ELSE [ast EXCEPT !.a = [i \in 1 .. Len(ast.a) |-> SubstEnv(ast.a[i], env)]]
+Subst(ast, L, R) == SubstEnv(ast, << [name |-> "l", shape |-> L], [name |-> "r", shape |-> R] >>)
 IsNullLit(t) == t.t = "lit" /\ t.v.k = "null"
 RECURSIVE Shape(_, _)
 Shape(t, d) ==
@@ -42,6 +44,8 @@ Shape(t, d) ==
                       ELSE IF t.v.n < 0 THEN Node("un", "-", << Node("val", ToString(0 - t.v.n), <<>>) >>)
                       ELSE Node("val", ToString(t.v.n), <<>>)
     [] t.t = "un" -> Subst(Tmpl(d, IF t.op = "-" THEN "neg" ELSE "not"), Shape(t.e, d), Node("none", "", <<>>))
+    \* a call of a std function: its template with the arguments' shapes for the parameters
+    [] t.t = "call" -> SubstEnv(Tmpl(d, t.f), [i \in 1 .. Len(t.args) |-> [name |-> t.args[i].name, shape |-> Shape(t.args[i].e, d)]])
     [] t.t = "bin" ->
          IF t.op \in {"==", "!="} /\ (IsNullLit(t.l) \/ IsNullLit(t.r))
          THEN Node(IF t.op = "==" THEN "isnull" ELSE "isnotnull", "", << Shape(IF IsNullLit(t.l) THEN t.r ELSE t.l, d) >>)
@@ -53,6 +57,7 @@ Known(t, d) ==
   CASE t.t = "un" -> Tmpl(d, IF t.op = "-" THEN "neg" ELSE "not").k # "none" /\ Known(t.e, d)
     [] t.t = "bin" -> /\ (NativeOp(t.op) # "" \/ Tmpl(d, TemplateName(t.op)).k # "none")
                       /\ Known(t.l, d) /\ Known(t.r, d)
+    [] t.t = "call" -> Tmpl(d, t.f).k # "none" /\ \A i \in 1 .. Len(t.args) : Known(t.args[i].e, d)
     [] OTHER -> TRUE
 
 \* ----------------------------------------------------------------------------
